@@ -152,6 +152,66 @@ async fn reqrep_case(client: &Client, raw: &quinn::Connection, log: &EvLog, run:
     Ok(())
 }
 
+/// Degenerate but legal request timeouts -- zero, less than a millisecond, one millisecond -- against a replier
+/// that never answers: every call must come back with the timeout error, promptly, and a handle with an
+/// ordinary timeout on the same topic works afterwards.  (Arithmetic on the timeout must not be able to end the
+/// caller's task.)
+async fn edge_timeouts(client: &Client, raw: &quinn::Connection, log: &EvLog, topic: &str) -> Result<()> {
+    log.emit("case", json!({"run": 900_001, "calls": []}));
+    let mut replier = register_raw_replier(raw, topic).await?;
+    for us in [0u64, 500, 1_000, 1_999] {
+        let mut r = client
+            .requestor(topic)
+            .with_request_encoder(StringCodec)
+            .with_reply_decoder(StringCodec)
+            .with_request_timeout(Duration::from_micros(us))?
+            .open()
+            .await?;
+        for _ in 0..2 {
+            let mut h = r.clone();
+            let t0 = std::time::Instant::now();
+            let res = match tokio::time::timeout(Duration::from_secs(20), tokio::spawn(async move { h.request("edge".to_string()).await })).await {
+                Ok(Ok(Ok(_))) => "ok".to_string(),
+                Ok(Ok(Err(selium::std::errors::SeliumError::RequestTimeout))) => "timeout".to_string(),
+                Ok(Ok(Err(e))) => format!("error: {e}"),
+                Ok(Err(e)) => format!("died: {}", if e.is_panic() { "panic" } else { "cancelled" }),
+                Err(_) => "hung".to_string(),
+            };
+            log.emit("edge_timeout", json!({"timeout_us": us, "res": res, "ms": t0.elapsed().as_millis() as u64}));
+        }
+        let _ = r.request("edge-original-handle".to_string()).await;
+    }
+    // drain what the replier was sent, answer nothing; then an ordinary exchange
+    let mut ordinary = client
+        .requestor(topic)
+        .with_request_encoder(StringCodec)
+        .with_reply_decoder(StringCodec)
+        .with_request_timeout(Duration::from_millis(2_000))?
+        .open()
+        .await?;
+    let call = tokio::spawn(async move { ordinary.request("call1:after-edge".to_string()).await });
+    let mut answered = false;
+    let deadline = tokio::time::Instant::now() + Duration::from_secs(5);
+    while let Ok(Some(Ok(f))) = tokio::time::timeout_at(deadline, replier.next()).await {
+        if let Frame::Message(m) = f {
+            if m.message.starts_with(b"call1:") {
+                replier.send(Frame::Message(MessagePayload { headers: m.headers.clone(), message: Bytes::from_static(b"re:after-edge") })).await?;
+                answered = true;
+                break;
+            }
+        }
+    }
+    let res = match tokio::time::timeout(Duration::from_secs(5), call).await {
+        Ok(Ok(Ok(s))) if s == "re:after-edge" => "ok".to_string(),
+        Ok(Ok(Ok(s))) => format!("wrong reply: {s}"),
+        Ok(Ok(Err(e))) => format!("error: {e}"),
+        Ok(Err(_)) => "died".to_string(),
+        Err(_) => "hung".to_string(),
+    };
+    log.emit("later_ret", json!({"res": if res == "ok" { "ok".to_string() } else { res }, "own": true, "answered": answered}));
+    Ok(())
+}
+
 pub async fn cmd_reqrep(args: Vec<String>) -> Result<()> {
     let env = setup(&args, "reqrep")?;
     let seed: u64 = arg(&args, "--seed").and_then(|s| s.parse().ok()).unwrap_or_else(seed_from_env);
@@ -184,6 +244,15 @@ pub async fn cmd_reqrep(args: Vec<String>) -> Result<()> {
     }
     for h in handles {
         h.await??;
+    }
+    {
+        let client = connect_client(env.server.addr, &env.certs, BackoffStrategy::constant().with_max_attempts(0)).await?;
+        let raw = raw_connect_trusted(env.server.addr, &env.certs).await?;
+        let clog = EvLog::new(Box::new(std::io::sink()));
+        if let Err(e) = edge_timeouts(&client, &raw, &clog, &format!("/verifrr{}/edge-timeouts", seed % 1000)).await {
+            clog.emit("harness_error", json!({"err": e.to_string()}));
+        }
+        env.log.append_block(&clog);
     }
     env.log.flush();
     let _ = std::fs::remove_dir_all(&env.certs);
